@@ -369,7 +369,7 @@ def solver_task(T, name, warm, props, shard=(0, 1)):
         if props == ('C03',) or props == ('SITES',):
             continue
         if 'C17' in props:
-            c17_return(T, cfg, k, st, w, objs, stop, fi)
+            c17_return(T, cfg, k, st, w, objs, stop, fi, nitems)
     if shard[0] != 0:
         return
     if n_ret == 0:
@@ -421,8 +421,35 @@ def SCOREg(wv, xv, j, ev):
     return C.SCORE(wv, z3.IntVal(0), xv, j, ev['strat'], ev['aux'])
 
 
-def c17_return(T, cfg, k, st, w, objs, stop, fi):
+def c17_stop_value(T, cfg, k, st, w, stop, fi, nitems):
+    """C17: `when a run stops on its tolerance the returned stopping value is the optimality violation of the returned point`:
+    on every path that leaves the outer loop through `break` (not by exhausting the budget) the returned value dominates the score
+    of every item and the intercept term computed from the CURRENT versions of the returned arrays -- whatever its size (no
+    `stop_crit <= tol` hypothesis: a stale value above tol is a wrong diagnostic too)"""
+    heads = [e for e in st.events if e['kind'] == 'loophead']
+    if not heads or not isinstance(w, SArr) or nitems is None or isinstance(stop, SInf):
+        return
+    h = heads[0]
+    if any(e['kind'] == 'loop-exhausted' and e['line'] == h['line'] for e in st.events):
+        return
+    ev = last_event(st, 'score', lambda e: e['ws'] in st.ghost.get('arange', {}))
+    name = f'{cfg}/stop-value-on-a-tolerance-stop'
+    if ev is None or not ev['grad_ok']:
+        T.failed(f'{name}:no-score-evaluation-on-the-path@p{k}', path_tag(st))
+        return
+    j = z3.Int('j!goal')
+    Sx = to_real(stop)
+    xv_now = st.heap[ev['xloc']]
+    _check(T, f'{name}>=score-of-every-item-of-the-returned-point@p{k}', st,
+           z3.Implies(z3.And(j >= 0, j < nitems), SCOREg(st.ver(w), xv_now, j, ev) <= Sx), terms=[j])
+    if not T.no_intercept:
+        _check(T, f'{name}>=intercept-optimality-of-the-returned-point@p{k}', st,
+               z3.Implies(fi, z3.Or(C.zabs(C.ISTEP(xv_now)) <= Sx, C.zabs(C.SUMRAW(xv_now)) <= Sx)))
+
+
+def c17_return(T, cfg, k, st, w, objs, stop, fi, nitems=None):
     nf = z3.Int('n_features')
+    c17_stop_value(T, cfg, k, st, w, stop, fi, nitems)
     src = st.ghost.get('fromlist', {}).get(objs.loc) if isinstance(objs, SArr) else None
     if src is None:
         T.failed(f'{cfg}/obj-history-is-the-appended-list@p{k}',
